@@ -28,6 +28,8 @@ EXPECT = {
     "seed-C17-e": ["C17"], "seed-C18-e": ["C18"], "seed-C19-e": ["C19"],
     "seed-C02-f": ["C02"], "seed-C08-f": ["C08"], "seed-C12-f": ["C12", "C02"], "seed-C13-f": ["C13"], "seed-C14-f": ["C14"], "seed-C17-f": ["C17"],
     "seed-C19-f": ["C19"],
+    "seed-C01-g": ["C01"], "seed-C03-g": ["C03"], "seed-C04-g": ["C04"], "seed-C05-g": ["C05", "C13"], "seed-C07-g": ["C07"], "seed-C09-g": ["C09"],
+    "seed-C10-g": ["C10"], "seed-C15-g": ["C15"], "seed-C16-g": ["C16", "C07"], "seed-C18-g": ["C18"],
 }
 
 
